@@ -10,7 +10,8 @@
    DESIGN section 1), and that a callable which passes the three-point probe IS the identity/reciprocal
    (it need not be: C10_probe_refuted). *)
 From CV Require Import Base.Tac Base.LinAlg Base.Cmp Model.C10_Conj Model.C10_ConjR
-                       Proofs.C10_Kernel Proofs.C10_Exact Proofs.C10_Valid Proofs.C10_Carrier.
+                       Proofs.C10_Kernel Proofs.C10_Exact Proofs.C10_Valid Proofs.C10_Carrier
+                       Proofs.C10_Approx Proofs.C10_Probe2 Proofs.C10_Vec.
 From Coq Require Import Reals QArith Qabs Qreals.
 
 (* ------------------------------------------------------------------------------------------------- *)
@@ -81,50 +82,61 @@ Theorem C10_gmrf_exact_iff :
 Proof. exact gmrf_exact_iff. Qed.
 Print Assumptions C10_gmrf_exact_iff.
 
-(* zero boundary conditions (the code stores rank = dim): exact, every order / dimension / data *)
+(* zero boundary conditions (the code stores rank = dim under either rank rule): m = len(b) = rank, exact *)
 Theorem C10_gmrf_zero_bc_exact :
-  forall (lnG : R -> R) (prec_fun : R -> R) (logdet : R) (cholT P : Rmat) (Ax b : Rvec) (alpha beta : R),
+  forall (lnG : R -> R) (rule : rank_rule) (order pd : nat) (prec_fun : R -> R) (logdet : R) (cholT P : Rmat) (Ax b : Rvec) (alpha beta : R),
     (forall s, 0 < s -> prec_fun s = s)%R ->
     chol_law (length b) cholT P -> length Ax = length b ->
-    proportional_on_pos (post_logd lnG (lik_gmrf prec_fun (gmrf_code_rank BZero (length b)) logdet P Ax b) alpha beta)
+    proportional_on_pos (post_logd lnG (lik_gmrf prec_fun (gmrf_code_rank rule BZero order pd (length b)) logdet P Ax b) alpha beta)
        (sampler_logpdf lnG (length b) (gmrf_sqrtprec cholT (prec_fun 1%R)) Ax b alpha beta).
 Proof.
-  exact (fun lnG pf ld cT P Ax b al be H1 H2 H3 =>
-           proj2 (gmrf_exact_iff lnG pf (gmrf_code_rank BZero (length b)) ld cT P Ax b al be H1 H2 H3)
-                 (gmrf_code_rank_zero (length b))).
+  exact (fun lnG rule order pd pf ld cT P Ax b al be H1 H2 H3 =>
+           proj2 (gmrf_exact_iff lnG pf (gmrf_code_rank rule BZero order pd (length b)) ld cT P Ax b al be H1 H2 H3)
+                 (gmrf_code_rank_zero rule order pd (length b))).
 Qed.
 Print Assumptions C10_gmrf_zero_bc_exact.
 
-(* FINDING (known_findings.tsv: Conjugate|GMRF:bc=periodic,neumann|shape:m/2-vs-rank/2).
-   periodic / neumann boundary conditions (the code stores rank = dim - 1 and its logpdf uses it):
-   for EVERY dimension > 0, data, prior and factor, the Gamma(m/2 + alpha, .) the sampler draws from is NOT
-   proportional to the target's own density.  The guard of C10_gmrf_exact_iff (rank = len b) is the exact
-   complement of this class. *)
+(* FIXED DEFECT (commit 2db3e3f; known_findings.tsv: exp./legacy.Conjugate|GMRF:bc=periodic,neumann|shape:m/2-vs-rank/2).
+   Before the repair the samplers used m = len(b).  For every field that is rank-deficient under the rank rule in
+   force (gmrf_nullity > 0: every periodic/neumann field under today's rule; every periodic/neumann field of order
+   1 or 2 under the rule of fixes/C20_gmrf_rank_rule.diff), every dimension > 0, data, prior and factor, that
+   Gamma(len(b)/2 + alpha, .) is NOT proportional to the target's own density.  If the witness of this class fails
+   again the check reports "fixed defect has returned". *)
 Theorem C10_gmrf_rank_deficient_refuted :
-  forall (lnG : R -> R) (bc : bc_type) (prec_fun : R -> R) (logdet : R) (cholT P : Rmat) (Ax b : Rvec) (alpha beta : R),
-    bc <> BZero -> (0 < length b)%nat ->
+  forall (lnG : R -> R) (rule : rank_rule) (bc : bc_type) (order pd : nat) (prec_fun : R -> R) (logdet : R) (cholT P : Rmat)
+         (Ax b : Rvec) (alpha beta : R),
+    (0 < gmrf_nullity rule bc order pd)%nat -> (0 < length b)%nat ->
     (forall s, 0 < s -> prec_fun s = s)%R ->
     chol_law (length b) cholT P -> length Ax = length b ->
-    ~ proportional_on_pos (post_logd lnG (lik_gmrf prec_fun (gmrf_code_rank bc (length b)) logdet P Ax b) alpha beta)
+    ~ proportional_on_pos (post_logd lnG (lik_gmrf prec_fun (gmrf_code_rank rule bc order pd (length b)) logdet P Ax b) alpha beta)
         (sampler_logpdf lnG (length b) (gmrf_sqrtprec cholT (prec_fun 1%R)) Ax b alpha beta).
 Proof.
-  exact (fun lnG bc pf ld cT P Ax b al be Hbc Hn H1 H2 H3 Hprop =>
-           gmrf_code_rank_deficient bc (length b) Hbc Hn
-             (proj1 (gmrf_exact_iff lnG pf (gmrf_code_rank bc (length b)) ld cT P Ax b al be H1 H2 H3) Hprop)).
+  exact (fun lnG rule bc order pd pf ld cT P Ax b al be Hnul Hn H1 H2 H3 Hprop =>
+           gmrf_code_rank_deficient rule bc order pd (length b) Hnul Hn
+             (proj1 (gmrf_exact_iff lnG pf (gmrf_code_rank rule bc order pd (length b)) ld cT P Ax b al be H1 H2 H3) Hprop)).
 Qed.
 Print Assumptions C10_gmrf_rank_deficient_refuted.
+
+(* which fields are rank-deficient: today's rule -- all periodic/neumann; the proposed rule -- those of order >= 1 *)
+Theorem C10_gmrf_nullity_rules :
+  (forall bc order pd, bc <> BZero -> gmrf_nullity RuleDimMinus1 bc order pd = 1%nat)
+  /\ (forall bc order pd, (0 < gmrf_nullity RuleNullity bc order pd)%nat <-> bc <> BZero /\ order <> 0%nat).
+Proof. exact (conj gmrf_nullity_legacy gmrf_nullity_new_pos). Qed.
+Print Assumptions C10_gmrf_nullity_rules.
 
 (* a concrete witness inside the class (neumann, order 1, dim 2: P = [[1,-1],[-1,1]], stored rank 1, m = 2) *)
 Theorem C10_gmrf_exact_refuted :
   exists (bc : bc_type) (cholT P : Rmat) (Ax b : Rvec),
     chol_law (length b) cholT P /\ length Ax = length b /\
     forall (lnG : R -> R) (logdet alpha beta : R),
-    ~ proportional_on_pos (post_logd lnG (lik_gmrf (fun s => s) (gmrf_code_rank bc (length b)) logdet P Ax b) alpha beta)
+    ~ proportional_on_pos (post_logd lnG (lik_gmrf (fun s => s) (gmrf_code_rank RuleDimMinus1 bc 1 1 (length b)) logdet P Ax b) alpha beta)
         (sampler_logpdf lnG (length b) (gmrf_sqrtprec cholT 1%R) Ax b alpha beta).
 Proof. exact gmrf_refuted_witness. Qed.
 Print Assumptions C10_gmrf_exact_refuted.
 
-(* the repaired sampler (fixes/C10_gmrf_rank.diff: m = the distribution's own rank) is exact for every rank *)
+(* THE CODE AS IT IS NOW (after 2db3e3f: m = the distribution's own rank): exact for every stored rank, hence for every
+   boundary condition, order, physical dimension and either rank rule (the periodic/neumann rate is a separate matter:
+   C10_gmrf_regularised_rate) *)
 Theorem C10_gmrf_rank_shape_exact :
   forall (lnG : R -> R) (prec_fun : R -> R) (rank : nat) (logdet : R) (cholT P : Rmat) (Ax b : Rvec) (alpha beta : R),
     (forall s, 0 < s -> prec_fun s = s)%R ->
@@ -133,6 +145,22 @@ Theorem C10_gmrf_rank_shape_exact :
        (sampler_logpdf lnG rank (gmrf_sqrtprec cholT (prec_fun 1%R)) Ax b alpha beta).
 Proof. exact gmrf_rank_shape_exact. Qed.
 Print Assumptions C10_gmrf_rank_shape_exact.
+
+(* the same with the model's own bookkeeping spelled out: the m the executable model uses for a GMRF
+   (sampler_m KGMRF (gmrf_code_rank ...)) is the rank in the target's density *)
+Theorem C10_gmrf_exact :
+  forall (lnG : R -> R) (rule : rank_rule) (bc : bc_type) (order pd : nat) (prec_fun : R -> R) (logdet : R) (cholT P : Rmat)
+         (Ax b : Rvec) (bq : list Q) (alpha beta : R),
+    (forall s, 0 < s -> prec_fun s = s)%R -> length bq = length b ->
+    chol_law (length b) cholT P -> length Ax = length b ->
+    let rk := gmrf_code_rank rule bc order pd (length b) in
+    proportional_on_pos (post_logd lnG (lik_gmrf prec_fun rk logdet P Ax b) alpha beta)
+       (sampler_logpdf lnG (sampler_m KGMRF rk bq) (gmrf_sqrtprec cholT (prec_fun 1%R)) Ax b alpha beta).
+Proof.
+  exact (fun lnG rule bc order pd pf ld cT P Ax b bq al be H1 _ H2 H3 =>
+           gmrf_rank_shape_exact lnG pf (gmrf_code_rank rule bc order pd (length b)) ld cT P Ax b al be H1 H2 H3).
+Qed.
+Print Assumptions C10_gmrf_exact.
 
 (* FINDING (known_findings.tsv: Conjugate|GMRF:bc=periodic,neumann|rate:sqrt-eps-regularisation).
    periodic / neumann: the factor is taken of P + eps I (eps = sqrt(machine eps) = 2^-26); the rate the sampler
@@ -278,6 +306,107 @@ Proof. exact (fun m alpha beta L Ax b => conj (shape_carriers_agree m alpha) (ra
 Print Assumptions C10_model_carriers_agree.
 
 (* ------------------------------------------------------------------------------------------------- *)
+(* 6. the other Gaussian branches: vector / diagonal-matrix covariance and precision                   *)
+(* ------------------------------------------------------------------------------------------------- *)
+
+(* prec = s * c for any positive weight vector c (prec = lambda s: s*np.ones(m) is c = 1): vector branch of
+   get_sqrtprec_from_prec -- logdet = sum(-log(prec)), sqrtprec = diag(sqrt(prec)) *)
+Theorem C10_gaussian_precvec_exact :
+  forall (lnG : R -> R) (prec_fun : R -> Rvec) (c0 Ax b : Rvec) (alpha beta : R),
+    (forall s, 0 < s -> prec_fun s = map (fun a => s * a) c0)%R -> Forall (fun a => 0 < a)%R c0 ->
+    length c0 = length b -> length Ax = length b ->
+    proportional_on_pos (post_logd lnG (lik_gauss_precvec prec_fun Ax b) alpha beta)
+      (sampler_logpdf lnG (length b) (sqrtprec_of (from_prec_vector (prec_fun 1%R))) Ax b alpha beta).
+Proof. exact gauss_precvec_exact. Qed.
+Print Assumptions C10_gaussian_precvec_exact.
+
+(* cov = c / s, vector branch of get_sqrtprec_from_cov *)
+Theorem C10_gaussian_covvec_exact :
+  forall (lnG : R -> R) (cov_fun : R -> Rvec) (c0 Ax b : Rvec) (alpha beta : R),
+    (forall s, 0 < s -> cov_fun s = map (fun a => a / s) c0)%R -> Forall (fun a => 0 < a)%R c0 ->
+    length c0 = length b -> length Ax = length b ->
+    proportional_on_pos (post_logd lnG (lik_gauss_covvec cov_fun Ax b) alpha beta)
+      (sampler_logpdf lnG (length b) (sqrtprec_of (from_cov_vector (cov_fun 1%R))) Ax b alpha beta).
+Proof. exact gauss_covvec_exact. Qed.
+Print Assumptions C10_gaussian_covvec_exact.
+
+(* cov = C / s with C a diagonal matrix (diagonal branch: var = cov.diagonal()) -- reached through the legacy sampler *)
+Theorem C10_gaussian_covdiag_exact :
+  forall (lnG : R -> R) (cov_fun : R -> Rmat) (c0 Ax b : Rvec) (alpha beta : R),
+    (forall s, 0 < s -> diag_of (cov_fun s) = map (fun a => a / s) c0)%R -> Forall (fun a => 0 < a)%R c0 ->
+    length c0 = length b -> length Ax = length b ->
+    proportional_on_pos (post_logd lnG (lik_gauss_covdiag cov_fun Ax b) alpha beta)
+      (sampler_logpdf lnG (length b) (sqrtprec_of (from_cov_vector (diag_of (cov_fun 1%R)))) Ax b alpha beta).
+Proof. exact gauss_covdiag_exact. Qed.
+Print Assumptions C10_gaussian_covdiag_exact.
+
+(* ------------------------------------------------------------------------------------------------- *)
+(* 7. ConjugateApprox: what exactly it is                                                             *)
+(* ------------------------------------------------------------------------------------------------- *)
+
+(* The Gamma(len(x) + alpha, ||W^(1/2) D x||^2 + beta) it draws from is the EXACT conditional of the density that
+   has the LMRF's formula with len(x) factors (instead of len(Dx)) and the smoothed penalty
+   sum_i t_i^2 / sqrt(t_i^2 + delta), t = Dx, (instead of ||Dx||_1) -- for every delta, D, x, alpha, beta *)
+Theorem C10_approx_exact_for_smoothed :
+  forall (lnG : R -> R) (scale_fun : R -> R) (delta : R) (D : Rmat) (x : Rvec) (alpha beta : R),
+    (forall s, 0 < s -> scale_fun s = 1 / s)%R ->
+    proportional_on_pos
+      (post_logd lnG (fun s => lmrf_like_logpdf (length x) (approx_penalty delta (Rmatvec D x)) (scale_fun s)) alpha beta)
+      (gamma_logpdf lnG (approx_shape_R (length x) alpha) (approx_rate_R delta D x beta)).
+Proof. exact approx_exact_for_smoothed. Qed.
+Print Assumptions C10_approx_exact_for_smoothed.
+
+(* against the LMRF's own density (LMRF.logpdf): exact iff D x has as many entries as x and the smoothed penalty
+   equals the l1 norm ... *)
+Theorem C10_approx_vs_lmrf_iff :
+  forall (lnG : R -> R) (scale_fun : R -> R) (delta : R) (D : Rmat) (x : Rvec) (alpha beta : R),
+    (forall s, 0 < s -> scale_fun s = 1 / s)%R ->
+    (proportional_on_pos (post_logd lnG (lik_lmrf scale_fun D x) alpha beta)
+       (gamma_logpdf lnG (approx_shape_R (length x) alpha) (approx_rate_R delta D x beta))
+     <-> length (Rmatvec D x) = length x /\ approx_penalty delta (Rmatvec D x) = norm1 (Rmatvec D x)).
+Proof. exact approx_vs_lmrf_iff. Qed.
+Print Assumptions C10_approx_vs_lmrf_iff.
+
+(* ... which for a positive delta (the code uses 1e-5) happens only when D x = 0: the sampler is approximate, never
+   exact, on every non-constant signal *)
+Theorem C10_approx_exact_iff_trivial :
+  forall (lnG : R -> R) (scale_fun : R -> R) (delta : R) (D : Rmat) (x : Rvec) (alpha beta : R),
+    (0 < delta)%R -> (forall s, 0 < s -> scale_fun s = 1 / s)%R ->
+    (proportional_on_pos (post_logd lnG (lik_lmrf scale_fun D x) alpha beta)
+       (gamma_logpdf lnG (approx_shape_R (length x) alpha) (approx_rate_R delta D x beta))
+     <-> length (Rmatvec D x) = length x /\ Forall (fun t => t = 0%R) (Rmatvec D x)).
+Proof. exact approx_exact_iff_trivial. Qed.
+Print Assumptions C10_approx_exact_iff_trivial.
+
+(* the size of the approximation in the rate: 0 <= ||v||_1 - penalty <= len(v) * sqrt(delta) *)
+Theorem C10_approx_penalty_bounds :
+  forall (delta : R) (v : Rvec), (0 < delta)%R ->
+    (0 <= approx_penalty delta v)%R /\ (approx_penalty delta v <= norm1 v)%R
+    /\ (norm1 v - approx_penalty delta v <= INR (length v) * sqrt delta)%R
+    /\ (approx_penalty delta v = norm1 v -> Forall (fun t => t = 0%R) v).
+Proof. exact approx_penalty_bounds. Qed.
+Print Assumptions C10_approx_penalty_bounds.
+
+(* ------------------------------------------------------------------------------------------------- *)
+(* 8. the reciprocal probe: mirror of C10_probe_sound_partial                                          *)
+(* ------------------------------------------------------------------------------------------------- *)
+
+Theorem C10_probe_reciprocal_sound_partial :
+  (forall c p, probe_reciprocal [DMul (DConst c) (DInv (dpow p))] = PTrue ->
+        p = 1%nat /\ (Qabs (c - 1) <= 1000000002 # 1000000000000000000)%Q)
+  /\ (forall a b, probe_reciprocal [DAdd (DMul (DConst a) (DInv DVar)) (DConst b)] = PTrue ->
+        (Qabs (a - 1) <= 103 # 100000000000)%Q /\ (Qabs b <= 205 # 100000000000)%Q)
+  /\ (forall a b, (Qabs (a - 1) <= 4 # 10000000000)%Q -> (Qabs b <= 4 # 1000000000000)%Q ->
+        probe_reciprocal [DAdd (DMul (DConst a) (DInv DVar)) (DConst b)] = PTrue).
+Proof. exact (conj probe_reciprocal_monomial (conj probe_reciprocal_affine_outer probe_reciprocal_affine_inner)). Qed.
+Print Assumptions C10_probe_reciprocal_sound_partial.
+
+Theorem C10_probe_reciprocal_refuted :
+  exists f s, probe_reciprocal [f] = PTrue /\ ~ (deval f s == 1 / s)%Q.
+Proof. exact probe_reciprocal_refuted. Qed.
+Print Assumptions C10_probe_reciprocal_refuted.
+
+(* ------------------------------------------------------------------------------------------------- *)
 (* non-vacuity: the hypotheses of the exactness theorems are satisfiable                              *)
 (* ------------------------------------------------------------------------------------------------- *)
 Example C10_nonvacuous :
@@ -285,3 +414,9 @@ Example C10_nonvacuous :
   /\ (exists (cholT P : Rmat) (b : Rvec), chol_law (length b) cholT P /\ (0 < length b)%nat)
   /\ (exists t key, validate_exp t = Accept key).
 Proof. exact nonvacuous. Qed.
+
+Example C10_nonvacuous_more :
+  (exists (c0 Ax b : Rvec), Forall (fun a => 0 < a)%R c0 /\ length c0 = length b /\ length Ax = length b /\ (0 < length b)%nat)
+  /\ (exists (delta : R) (v : Rvec), (0 < delta)%R /\ (approx_penalty delta v < norm1 v)%R)
+  /\ (exists a b, ~ (a == 1)%Q /\ ~ (b == 0)%Q /\ probe_reciprocal [DAdd (DMul (DConst a) (DInv DVar)) (DConst b)] = PTrue).
+Proof. exact nonvacuous_more. Qed.
